@@ -326,6 +326,91 @@ def client_forgery_case(exe, it, run, stats):
             w.close(kill=True)
 
 
+def reversal_case(exe, it, run, stats):
+    """one security context in both roles: a node that has an OSCORE client session AND serves a
+    resource on it (RFC 7252 lets the peer of a session send requests too).  The peer's
+    requests and the peer's responses then meet the same recipient context.  Between genuine
+    requests the peer's address sends forged responses to the node's outstanding request (its
+    token; no Partial IV, or one of the forger's choosing; junk ciphertext): they fail
+    authentication and must not change what happens to replays of the requests accepted so
+    far - each is still accepted at most once"""
+    r = common.rng("c15r-%d" % it)
+    c = mkctx(r)
+    win = r.choice([1, 2, 8, 32])
+    w = world.World(exe, seed=r.getrandbits(30), cmd_timeout=20)
+    sim = world.Sim(w, latency=1)
+    witness = {"item": it, "seed": common.seed(), "kind": "role-reversal", "window": win,
+               "script": w.script}
+    peer = "10.0.5.5:5683"
+    try:
+        sim.add_node(0)
+        sim.cmd("res 0 %s body=fixed:6f6b" % b"r".hex())
+        sim.peers[peer] = lambda *a: None
+        evs = sim.cmd("sess 0 0 udp %s oscore=%s start_seq=0" % (
+            peer, conf_text(c["secret"], c["salt"], c["client_id"], c["server_id"], c["idctx"],
+                            False, win)))
+        xaddr = [e["local"] for e in evs if e["e"] == "sess" and e.get("ok")]
+        if not xaddr:
+            raise common.Inconclusive("no session")
+        xaddr = xaddr[0]
+        # the node's own request: stays outstanding (the peer does not answer it)
+        sim.cmd("send 0 0 type=1 code=1 token=aa01 opts=11=78")
+        sim.run(until=sim.elapsed() + 5, quiesce=False)
+        refc = O.SecCtx(c["secret"], c["salt"], c["idctx"], c["server_id"], c["client_id"])
+        runs = {}
+        sent = {}
+        piv, mid = 4, 700
+        for step in range(r.choice([4, 8, 14])):
+            x = r.random()
+            if x < 0.5 or not sent:
+                piv += r.choice([1, 1, 2])
+                ident = len(sent) + 1
+                d = build_req(refc, piv, ident, mid)
+                sent[ident] = d
+                what = ("fresh", ident)
+            elif x < 0.8:
+                ident = r.choice(sorted(sent))
+                d = sent[ident]
+                what = ("replay", ident)
+            else:
+                fpiv = r.choice([None, None, b"\x64", b"\x01", b"\xff\xff\xff\xff\xff"])
+                ov = b"" if fpiv is None else bytes([len(fpiv)]) + fpiv
+                d = cw.encode(cw.msg(0x44, type=1, mid=(0x4000 + mid) & 0xffff,
+                                     token=bytes.fromhex("aa01"), options=[(9, ov)],
+                                     payload=bytes(r.getrandbits(8) for _ in range(
+                                         r.choice([9, 12, 30])))), "udp")
+                what = ("forged-response", None)
+                stats["reversal_forgeries"] = stats.get("reversal_forgeries", 0) + 1
+            mid += 1
+            mark = len(sim.log)
+            sim.inject(peer, xaddr, d)
+            sim.run(until=sim.elapsed() + 5, quiesce=False)
+            if what[0] != "forged-response":
+                n = sum(1 for e in sim.log[mark:] if e["e"] == "req" and
+                        e.get("phex") == (b"id-%d" % what[1]).hex())
+                runs[what[1]] = runs.get(what[1], 0) + n
+            elif any(e["e"] == "rsp" for e in sim.log[mark:]):
+                run.violation("forgery-accepted/role-reversal", witness,
+                              "a forged response reached the response handler")
+            witness.setdefault("steps", []).append(what)
+        stats["reversal_requests"] = stats.get("reversal_requests", 0) + len(sent)
+        for ident, n in runs.items():
+            if n > 1:
+                run.violation("replay-accepted/role-reversal", dict(witness, ident=ident),
+                              "request id-%d reached the handler %d times; steps %r" %
+                              (ident, n, witness.get("steps")))
+        if sent and not any(runs.values()):
+            run.violation("fresh-message-rejected/role-reversal", witness,
+                          "none of %d genuine requests was accepted" % len(sent))
+        world.teardown_check(run, "C15", w, witness)
+        return ("role-reversal", win, len(sent))
+    except world.WorldCrash as e:
+        world.crash_violation(run, "C15", e, witness)
+    finally:
+        if not w.closed:
+            w.close(kill=True)
+
+
 def sender_case(exe, it, run, stats):
     """libcoap client with ssn_freq; killed after a message boundary; restarted from the last
     value handed to the save callback"""
@@ -403,6 +488,8 @@ def work(job):
                 sigs.add(recipient_case(exe, it, run, stats))
             elif kind == "client-forgery":
                 sigs.add(client_forgery_case(exe, it, run, stats))
+            elif kind == "role-reversal":
+                sigs.add(reversal_case(exe, it, run, stats))
             else:
                 sigs.add(sender_case(exe, it, run, stats))
         except world.WorldCrash as e:
@@ -424,7 +511,9 @@ def main(tier):
                 "ssn_freq 1/2/4/10 (also changed between runs), killed after 0..7 messages, "
                 "restarted from the last saved value, 2-4 incarnations; client: a libcoap OSCORE client "
                 "observing, forged responses (its token, Partial IV 0 .. 2^40-1 or none, junk "
-                "ciphertext) between genuine notifications; distinct_nontrivial = "
+                "ciphertext) between genuine notifications; role reversal: a node with an OSCORE "
+                "client session that also serves requests on it, forged responses to its own "
+                "outstanding request between genuine requests and replays; distinct_nontrivial = "
                 "distinct (B.1.2, window, length, operation kinds) / sender tuples")
     run.assumptions = ["the sender of the recipient-side histories is vf/refs/oscore.py",
                        "no model of the window is used: at-most-once, differential no-trace and "
@@ -436,6 +525,8 @@ def main(tier):
     jobs += [("sender", list(range(i, min(nsend, i + chunk))), exe) for i in range(0, nsend, chunk)]
     ncli = 150 if tier == "quick" else 3000
     jobs += [("client-forgery", list(range(i, min(ncli, i + chunk))), exe)
+             for i in range(0, ncli, chunk)]
+    jobs += [("role-reversal", list(range(i, min(ncli, i + chunk))), exe)
              for i in range(0, ncli, chunk)]
     stats = {}
     for n, sigs, vios, st in common.parallel_map(work, jobs):
@@ -452,5 +543,7 @@ def main(tier):
     run.require("sender_pivs", stats.get("pivs", 0), 300)
     run.require("server_pivs", stats.get("server_pivs", 0), 50)
     run.require("client_forgeries", stats.get("client_forgeries", 0), 100)
+    run.require("reversal_forgeries", stats.get("reversal_forgeries", 0), 100)
+    run.require("reversal_requests", stats.get("reversal_requests", 0), 300)
     run.require("client_notifications", stats.get("client_notifications", 0), 200)
     return run.finish()
